@@ -5,6 +5,7 @@ import (
 	"fmt"
 	"os"
 	"path/filepath"
+	"sort"
 	"strings"
 	"time"
 
@@ -24,7 +25,8 @@ type c04FileRes struct {
 	DirtyAfter []uint16
 	FileBefore map[uint16]uint64 // seqNo per vBucket in the file before / after the save that follows
 	FileAfter  map[uint16]uint64
-	OwnedAcked uint64 // control: a late acknowledgement for a vBucket still owned is applied
+	OwnedAcked uint64   // control: a late acknowledgement for a vBucket still owned is applied
+	Reopened   []uint16 // the vBuckets the reopen requested streams for
 	Err        string
 }
 
@@ -96,6 +98,7 @@ func init() {
 		res.FileBefore = readCheckpointFile(path)
 		// the range shrinks; the reopen loads the whole file
 		d.Disc.Set(a.Shrink[0], a.Shrink[1])
+		d.Client.TakeOpens()
 		d.Stream.Rebalance()
 		deadline := time.Now().Add(3 * time.Second)
 		for time.Now().Before(deadline) && !d.Stream.IsOpen() {
@@ -105,6 +108,10 @@ func init() {
 		if !d.Stream.IsOpen() {
 			res.Err = "the stream was not reopened within 3 s"
 		}
+		for _, oc := range d.Client.TakeOpens() {
+			res.Reopened = append(res.Reopened, oc.VbID)
+		}
+		sort.Slice(res.Reopened, func(i, j int) bool { return res.Reopened[i] < res.Reopened[j] })
 		d.Cons.Take()
 		for vb := uint16(0); vb < 4; vb++ {
 			for _, ctx := range late[vb] {
@@ -159,9 +166,24 @@ func runC04File(c *Ctx) {
 			c.Note("c04file %v not driven: %s", sh, res.Err)
 			continue
 		}
+		var wantReq []uint16
+		for vb := sh[0]; vb <= sh[1]; vb++ {
+			wantReq = append(wantReq, vb)
+		}
+		if fmt.Sprint(res.Reopened) != fmt.Sprint(wantReq) {
+			c.Violate("file-backend-streams", fmt.Sprintf("file backend, range 0..3 -> %v: the reopen requested streams for %v; the member owns %v (the file also holds the checkpoints of the vBuckets that left)", sh, res.Reopened, wantReq), rep)
+		}
 		for vb := uint16(0); vb < 4; vb++ {
 			owned := vb >= sh[0] && vb <= sh[1]
 			if owned {
+				// the positions acknowledged after the reopen are in the file after the save that followed
+				if res.FileAfter[vb] != 4 {
+					c.Violate("file-backend-save", fmt.Sprintf("file backend, range 0..3 -> %v: events up to 4 of vBucket %d were acknowledged and a save succeeded; the file has %d", sh, vb, res.FileAfter[vb]), rep)
+				}
+				continue
+			}
+			if _, ok := res.FileAfter[vb]; !ok {
+				c.Violate("file-backend-save", fmt.Sprintf("file backend, range 0..3 -> %v: the checkpoint of vBucket %d (untouched by the last save) is gone from the file", sh, vb), rep)
 				continue
 			}
 			switch {
